@@ -125,7 +125,7 @@ def job_sliceoff(item):
     S.absorb_engine(eng)
     return S
 
-WS_EXPRS = [' abs(a)', 'abs(a) ', '  a | abs(@)  ', '\n  a |\n  abs(@)\n', '\tnosuch(a)', ' a[::0] ', ' length(a, b)\n', '\n\nsort_by(a, &b)', ' é | abs(a) ']
+WS_EXPRS = [' abs(a)', 'abs(a) ', '  a | abs(@)  ', '\n  a |\n  abs(@)\n', '\tnosuch(a)', ' a[::0] ', ' length(a, b)\n', '\n\nsort_by(a, &b)', ' é | abs(a) ', 'abs (a)', 'nope\n  (@)', 'a | length  (@, @)', 'é.abs\t(@)']
 def job_compiled(item):
     """errors of searches made through Runtime::compile + Expression::search (the public path): the error carries the ORIGINAL expression text and
     its offset is the opening parenthesis of the failing call / lies in the slice, in that text"""
